@@ -227,6 +227,13 @@ package pokertable
 //@   modifies m.tableEngines
 //@   ensures forgets-every-table: all(id, !has(m, id))
 
+//@ func NewManager
+//@   property C17
+//@   returns r
+//@   modifies nothing
+//@   ensures fresh-manager: r != nil && fresh(r) && typeis(r, "*pokertable.manager")
+//@   ensures knows-no-table: all(id, !has(dyn(r, "*pokertable.manager"), id))
+
 //@ func NewTableEngine
 //@   property C17
 //@   returns e
